@@ -108,6 +108,16 @@ fn main() {
             std::process::exit(2)
         }
     };
+    let mut out = out;
+    // coverage goals: the internal paths a check aims at must actually have been reached (hook counters);
+    // a full run that missed one is inconclusive, not green
+    if ctx.replay.is_none() && ctx.scale_div == 1 && !ctx.miri && ctx.only_sub.is_none() && ctx.shard.1 <= 1 && std::env::var("RV_WORKER").is_err() {
+        let hits = raqote::verif::hits();
+        let missed: Vec<&str> = required_sites(&prop).into_iter().filter(|name| raqote::verif::SITES.iter().zip(hits.iter()).any(|(n, h)| n == name && *h == 0)).collect();
+        if !missed.is_empty() {
+            out.inconclusive(format!("the workload never reached: {}", missed.join(", ")));
+        }
+    }
     let wall = ctx.start.elapsed().as_secs_f64();
 
     // replay files and verdict lines
@@ -232,6 +242,29 @@ fn main() {
         }
         std::process::exit(2);
     }
+}
+
+fn required_sites(prop: &str) -> Vec<&'static str> {
+    let shaders: Vec<&'static str> = raqote::verif::SITES.iter().cloned().filter(|s| s.starts_with("shader:")).collect();
+    let images: Vec<&'static str> = shaders.iter().cloned().filter(|s| s.contains("Image")).collect();
+    let gradients: Vec<&'static str> = shaders.iter().cloned().filter(|s| s.contains("Gradient")).collect();
+    let blitters: Vec<&'static str> = raqote::verif::SITES.iter().cloned().filter(|s| s.starts_with("blitter:")).collect();
+    let mut v: Vec<&'static str> = Vec::new();
+    match prop {
+        "C01" => v.extend(["add_edge:line", "add_edge:dropped_above_or_below", "add_edge:dropped_horizontal", "add_edge:starts_above_surface", "add_edge:dropped_after_stepping", "scan_edges:skipped_left_of_surface", "scan_edges:stopped_right_of_surface", "reset:nothing_added", "reset:cleared"]),
+        "C02" | "C03" | "C18" | "C06" => {
+            v.extend(shaders);
+            v.extend(blitters);
+        }
+        "C05" => v.extend(["blitter:ShaderClipMaskBlitter", "blitter:ShaderClipBlendMaskBlitter", "blitter:ShaderMaskBlitter", "blitter:ShaderBlendMaskBlitter"]),
+        "C08" => v.extend(["add_edge:curve", "add_quad:chopped", "add_quad:forced_monotonic", "add_quad:monotonic", "add_edge:starts_above_surface"]),
+        "C11" => v.extend(["composite:singular_transform", "add_edge:curve"]),
+        "C12" => v.extend(gradients),
+        "C13" => v.extend(images),
+        "C14" => v.extend(["fill_rect:fast_path", "fill_rect:path", "clear:fast_path", "clear:path", "blitter:ShaderBlendBlitter"]),
+        _ => {}
+    }
+    v
 }
 
 fn hook_counters() -> J {
